@@ -29,7 +29,7 @@ def corpus_cases():
 
 
 def run(ctx):
-    proof = vlib.coq_prove(ctx, FILES, leaves=['callbacklist', 'locks'])
+    proof = vlib.coq_prove(ctx, FILES, leaves=['callbacklist', 'locks', 'spinlock'])
     res = vlib.build_many(ctx, [dict(name='clconc', src='clconc.cpp', defs=[])])
     binary, err = res['clconc']
     if binary is None:
